@@ -160,7 +160,11 @@ func (d *Decoder) readTypedMap() (interface{}, error) {
 	}
 	mType, ok := d.typMap[typ]
 	if !ok {
-		return nil, newCodecError("ReadType", "no type map for %v", typ)
+		if d.skipping == 0 {
+			return nil, newCodecError("ReadType", "no type map for %v", typ)
+		}
+		// the map is part of a value that is dropped: its entries are read like those of an untyped map
+		mType = reflect.TypeOf(map[interface{}]interface{}{})
 	}
 
 	var mValue reflect.Value
